@@ -235,7 +235,34 @@ class _Inliner:
             call, kind = st.value, 'assign'
         elif isinstance(st, ast.Return) and isinstance(st.value, ast.Call):
             call, kind = st.value, 'return'
-        if call is None:
+        if call is None or self._helper_of(call, cls)[0] is None:
+            # a statement helper called inside a larger expression: evaluate it first into a
+            # fresh local (its arguments are plain names, so nothing is reordered that could
+            # observe the difference) and expand that assignment
+            if isinstance(st, (ast.Assign, ast.AugAssign, ast.Return, ast.Expr)) and \
+                    getattr(st, 'value', None) is not None:
+                for n in ast.walk(st.value):
+                    if isinstance(n, ast.Call) and n is not st.value:
+                        h2, recv2 = self._helper_of(n, cls)
+                        if h2 is not None and h2.fn is not owner and h2.expression() is None \
+                                and all(_simple(a) for a in n.args) and \
+                                all(_simple(k.value) for k in n.keywords):
+                            self.counter += 1
+                            tmp = '%s_value%d' % (h2.fn.name.strip('_'), self.counter)
+                            pre_st = ast.copy_location(ast.Assign(
+                                targets=[ast.Name(tmp, ast.Store())], value=copy.deepcopy(n)), st)
+                            rep = self._expand_stmt(pre_st, cls, owner)
+                            if rep is None:
+                                return None
+
+                            class R(ast.NodeTransformer):
+                                def visit_Call(self, c):
+                                    if c is n:
+                                        return ast.copy_location(ast.Name(tmp, ast.Load()), c)
+                                    self.generic_visit(c)
+                                    return c
+                            st.value = R().visit(st.value)
+                            return rep + [st]
             return None
         h, recv = self._helper_of(call, cls)
         if h is None or h.fn is owner or h.expression() is not None:
